@@ -800,7 +800,7 @@ func ruleIndexMapUse(rule string) ruleFn {
 					c.Bad(rule, key, "", "failed reader is not recorded", nil)
 				}
 				// a recorded failure is always reported: success is returned only with no recorded error
-				c.Guard(rule, fn, nilErrorReturns(fn), "return n,nil", nil, atom("no reader failure recorded", "+len(var(complit).Errors) ==0"))
+				c.Guard(rule, fn, nilErrorReturns(fn), "return n,nil", nil, errorsEmpty(fn, "no reader failure recorded"))
 				// read source + gate
 				if idx != nil {
 					c.Guard(rule, fn, calls, "reader.ReadAt", nil, atom("backendsAvailable", "$0.backendsAvailable"))
